@@ -19,7 +19,7 @@ class C12(BaseCheck):
   RULE = ('case = (stack, hop at expiry) x seeded offset of the deadline relative to the hop\'s hand-over '
           'instant (20%: exactly on it / on the 10 ms grid = boundary class), hops: blocked-write (serial: the deadline passes inside the blocked write of the request itself), open (client still '
           'connecting), pool-connect (second pooled connection still connecting), pool-queue (waiting for '
-          'the only connection), send-queue (mux writer stalled), wire (written, unanswered or answered '
+          'the only connection), send-queue (mux writer stalled; one case in twelve queues 1100 calls behind a blocked write while an earlier, written call times out), wire (written, unanswered or answered '
           'late), mixed (random combination). Every byte range the server decoded is mapped back to the '
           'client send() events that carried it; for a call handed TimeoutError at log position s no send '
           'carrying its bytes may have position > s; for mux a request fully written before s and '
@@ -32,7 +32,7 @@ class C12(BaseCheck):
              'scales.thriftmux.sink:SocketTransportSink._OnTimeout',
              'scales.pool.watermark:WatermarkPoolSink._ProcessQueue')
   REQUIRED_ANCHORS = ANCHORS
-  REQUIRED_CLASSES = tuple('%s/%s' % h for h in HOPS) + ('boundary', 'discard-expected', 'expired-not-sent', 'large-tags', 'expired-in-open-wait')
+  REQUIRED_CLASSES = tuple('%s/%s' % h for h in HOPS) + ('boundary', 'discard-expected', 'expired-not-sent', 'large-tags', 'expired-in-open-wait', 'send-queue:over-a-thousand-queued')
   ASSUMPTIONS = ('bytes are attributed to calls through the frames the server decodes (cid in the argument) '
                  'plus a scan of undecoded trailing bytes for the call id',)
   QUICK_CASES = 1440
@@ -238,6 +238,21 @@ class C12(BaseCheck):
           env.advance(0.001)
       call(5.0, {'delay': 0.001})      # a live waiter behind the expired ones
       env.advance(D * 2 + 0.3)
+    elif hop == 'send-queue' and (idx // len(HOPS)) % 12 == 7:
+      # a deep send queue: one call is written and never answered, then the peer stops draining and
+      # more than a thousand further calls pile up behind the blocked write; the first call's
+      # deadline passes meanwhile - its discard notice waits in the same queue and must still go out
+      classes.add('send-queue:over-a-thousand-queued')
+      call(0.5, {'drop': True})
+      env.advance(0.01)
+      srv.sim.send_delay = lambda conn: 5.0
+      call(60.0, {'delay': 0.001})
+      env.advance(0.001)        # the writer has taken this one and is blocked in its write
+      for _ in range(1100):
+        call(60.0, {'delay': 0.001})
+      env.advance(1.0)
+      srv.sim.send_delay = None
+      env.advance(8.0)
     elif hop == 'send-queue':
       stall = rng.choice([0.05, 0.3])
       srv.sim.send_delay = lambda conn: stall if rng.random() < 0.7 else 0.0
